@@ -146,6 +146,9 @@ def oracle(probes, ops, obs, res):
             counts[ch] += 1
             key = (bid, type_, name.lower())
             if bid not in active:
+                # (a browser cancelled in an EARLIER op, or by a BR op.  A browser that its own handler cancels in the middle of a batch
+                # stays `active` until the end of this op: the property says nothing about the rest of a batch that was already being
+                # fired -- the asyncio flavour delivers it, the threaded flavour's run() drops it; both are accepted)
                 found.append((idx, "C04:callback-from-cancelled-browser", "browser %d is cancelled but delivered %s(%s)" % (bid, ch, name)))
             elif type_ not in active[bid]:
                 found.append((idx, "C04:callback-for-foreign-type", "browser %d does not browse %s but delivered %s(%s)" % (bid, type_, ch, name)))
@@ -169,6 +172,12 @@ def oracle(probes, ops, obs, res):
                     made and _expired_only(snap, o["S"], (CC.op_time(op) or 0) + (o.get("ticks") or 0))):
                 found.append((idx, "C04:callback-before-cache-update", "the cache seen inside the %s callback for %s differs from the cache after the op" % (ch, name)))
                 _DETAIL[(idx, "C04:callback-before-cache-update", found[-1][2])] = key
+        for e in (o.get("events") or []):
+            if e[0] == "k":
+                # cancelled by its own handler during this op: from now on it owes (and may deliver) nothing
+                active.pop(e[3][0], None)
+                for key in [x for x in live if x[0] == e[3][0]]:
+                    del live[key]
         if o["P"] is not None:
             for bid, types in active.items():
                 for t in types:
@@ -485,6 +494,25 @@ S1_SIG = "C04:update-round-reentrant-listener:removed-twice"
 S6_SIG = "C04:update-round-reentrant-listener:added-before-cached"
 
 
+def cancel_in_handler_histories():
+    """a browser's own service handler cancels the browser in the middle of a batch (plan with new id -1): both flavours (2 = asyncio,
+    3 = threaded-like), the cancelling event first / last of a batch of Added resp. Removed, another browser next to it, and a
+    datagram afterwards (a cancelled browser must stay silent in later ops)"""
+    P, PB = VOCAB[0], VOCAB[2]
+    for bid in (2, 3):
+        for trig_name in ("a._x._tcp.local.", "b._x._tcp.local."):
+            for trigger in ("A", "R"):
+                for other in ([], [0]):
+                    t0 = CC.T0
+                    ops = [["BA", bid, t0, [TX]]] + [["BA", b, t0, [TX]] for b in other]
+                    ops.append(["BP", bid, trigger, trig_name, -1, []])
+                    ops.append(["D", t0, [CC.inst(P, 4500, 0), CC.inst(PB, 4500, 0)], []])
+                    ops.append(["D", t0 + 5000, [CC.inst(P, 0, 0), CC.inst(PB, 0, 0)], []])
+                    ops.append(["D", t0 + 9000, [CC.inst(P, 4500, 0), CC.inst(VOCAB[3], 4500, 0)], []])
+                    ops.append(["X", t0 + 20000])
+                    yield ops
+
+
 def update_round_histories():
     P, PB, A = VOCAB[0], VOCAB[2], VOCAB[10]
     q = ["_other._tcp.local.", 12, 1]
@@ -725,6 +753,9 @@ def run(ctx):
     run_ur = CC.Runner(res, "C04", ctx, oracle_update_round, valid=update_round_valid)
     for ops in update_round_histories():
         run_ur.add("update-round-reentrant-listener", probes, ops, model_on=False)
+    # a handler that cancels its own browser mid-batch (stage O only: no cancel in the composite model)
+    for ops in cancel_in_handler_histories():
+        run_.add("cancel-in-handler", probes, ops, model_on=False)
     run_ur.finish()
 
     # outside the quantifier: model correspondence only (exercises the Added > Removed > Updated precedence, which WFHist makes unreachable)
@@ -757,6 +788,9 @@ def run(ctx):
                 % (res.dist.get("possible_types-names", 0), [(len(p[0]), len(p[1]), p[2]) for p in plans], n_exh, "complete" if complete else "cut short", done, len(VOCAB), max(1, n_random // 4)))
     res.rule = res.rule.replace("@NLIVE@", str(n_live))
     res.sample({"browser_types": BROWSER_TYPES, "example": [["BA", 1, CC.T0, [TX]], ["D", CC.T0, [CC.inst(_P, 120, 0)], []], ["X", CC.T0 + 1125000]]})
+    if any("cut short" in n or "stopped after" in n for n in res.notes):
+        # a stream was cut by the wall-clock budget (a loaded machine): the run is not the complete plan; the note says which stream
+        res.exhaustive = False
     res.count("wall_s", int(time.time() - t0))
     return res
 
